@@ -152,6 +152,44 @@ def model(lk, meanings, desc, m: dl.MCtx):
     return {dl.TRUE}, m2, {"leaves": len(lvs), "used_binding": used_binding}
 
 
+class Boxed:
+    """An array class that is itself a registered PyTree node (like jax.experimental.sparse.BCOO, or a user container with
+    .shape/.dtype): as a leaf type's array class its instances are leaves, JAX must not be left to descend into them."""
+
+    def __init__(self, data):
+        self.data = data
+
+    shape = property(lambda self: self.data.shape)
+    dtype = property(lambda self: self.data.dtype)
+
+
+import jax.tree_util as _jtu  # noqa: E402
+
+_jtu.register_pytree_node(Boxed, lambda b: ((b.data,), None), lambda aux, ch: Boxed(ch[0]))
+
+
+class _BadFlatten:
+    pass
+
+
+def _bad_flatten(x):
+    raise RuntimeError("this node cannot be flattened right now")
+
+
+_jtu.register_pytree_node(_BadFlatten, _bad_flatten, lambda aux, ch: _BadFlatten())
+
+
+def check_bare_pytree(ctx):
+    """isinstance(x, PyTree) -- no leaf type -- is True for every object whatsoever, also for values JAX cannot flatten."""
+    values = {"dict with unsortable keys": {1: "a", "b": 2}, "node whose flatten raises": _BadFlatten(), "object()": object(), "a generator": (i for i in range(2)),
+              "None": None, "a class": int, "nested unflattenable": [({1: 0, "x": 1},), _BadFlatten()], "Boxed array": Boxed(np.zeros((2,)))}
+    for name, v in values.items():
+        got = obs.verdict(v, PyTree)
+        ctx.note(["bare-pytree", name], True, classes=["bare-pytree-value"], sample={"bare_pytree_value": name, "verdict": got})
+        if got != dl.TRUE:
+            raise Violation("bare-pytree", {"bare_value": name}, f"isinstance(<{name}>, PyTree) gave {got}; a bare PyTree accepts everything")
+
+
 def payload_value(p):
     if p[0] == "f":
         return float(p[1])
@@ -209,13 +247,16 @@ def check_case(ctx, case):
     spec = dl.spec_spelling(toks)
     meanings = [t.meaning() for t in toks]
     L0 = L = leaf_type(lk, spec)
+    boxed = bool(case.get("boxed")) and lk == "array"
+    if boxed:
+        L0 = L = Shaped[Boxed, spec]
     for i in range(case.get("newtype", 0)):
         # typing.NewType over the leaf type (once, or a NewType of a NewType): at run time a value matches it iff it matches the underlying type
         from typing import NewType
 
         L = NewType(f"VfNew{i}", L)
     desc = gt.from_json(case["tree"])
-    real = pt.build(desc, (lambda p: L0(np.zeros(tuple(p[1][0])), np.zeros(tuple(p[1][1]))) if p[0] == "P" else payload_value(p)))
+    real = pt.build(desc, (lambda p: L0(np.zeros(tuple(p[1][0])), np.zeros(tuple(p[1][1]))) if p[0] == "P" else (Boxed(payload_value(p)) if boxed and p[0] == "a" else payload_value(p))))
     with jaxtyped("context"):
         m = dl.MCtx()
         for pj, shape in case["prior"]:
@@ -258,7 +299,7 @@ def check_case(ctx, case):
     subtree_leaf = lk in ("pair", "pair-any", "tuple-arr", "nt-arr") and "pair-subtree" in case.get("flags", [])
     nontrivial = len(dl_) >= 3 and len(set(dl_)) >= 2 and (subtree_leaf or has_empty(desc) or info.get("used_binding", False))
     ctx.note([lk, spec, case["tree"], case["prior"]], nontrivial,
-             classes=([f"newtype-{lk}"] if case.get("newtype") else []) + [f"leaf-{lk}", f"got-{got}", f"nleaves-{min(len(dl_), 6)}"] + (["has-empty-or-none"] if has_empty(desc) else [])
+             classes=([f"newtype-{lk}"] if case.get("newtype") else []) + (["array-class-is-a-pytree-node"] if boxed else []) + [f"leaf-{lk}", f"got-{got}", f"nleaves-{min(len(dl_), 6)}"] + (["has-empty-or-none"] if has_empty(desc) else [])
              + (["used-binding"] if info.get("used_binding") else []) + (["subtree-is-leaf"] if subtree_leaf else []),
              sample={"leaf_type": lk, "spec": spec, "tree": case["tree"], "prior_bindings": before[0], "verdict": got})
 
@@ -266,7 +307,7 @@ def check_case(ctx, case):
 @st.composite
 def c08_case(draw):
     lk = draw(st.sampled_from(LEAF_KINDS))
-    case = {"leaf": lk, "prior": [], "flags": [], "newtype": draw(st.sampled_from([0, 1, 0, 0, 2]))}
+    case = {"leaf": lk, "prior": [], "flags": [], "newtype": draw(st.sampled_from([0, 1, 0, 0, 2])), "boxed": draw(st.sampled_from([True, False, False]))}
     m = dl.MCtx()
     for _ in range(draw(st.integers(0, 3))):
         ptoks = draw(gd.legal_spec(max_axes=3, bound=sorted(m.single), names=["a", "b", "c"], vnames=["v"]))
@@ -351,10 +392,18 @@ def run(ctx):
         check_case(ctx, case)
 
     ctx.hyp(cases, max_examples=ctx.n(500, 3000))
+    if ctx.shard == 0:
+        try:
+            check_bare_pytree(ctx)
+        except Violation as v:
+            ctx.record(v)
 
 
 def replay(case, clause, ctx):
     try:
+        if "bare_value" in case:
+            check_bare_pytree(ctx)
+            return None
         check_case(ctx, case)
     except Violation as v:
         return str(v)
